@@ -846,3 +846,126 @@ def deprecation_direction(check: Check, repo: Repo, rule: str = "DEPRECATION-DIR
         if got != want:
             bad.append(f"implementation {'deprecated' if t_dep else 'not deprecated'} / interface {'deprecated' if i_dep else 'not deprecated'}: reported={got}, expected {want}")
     check.ob(rule, g, f"deprecation report under `{unparse(g.test)[:70]}`", not bad, "4 of 4 cells" if not bad else "; ".join(bad))
+
+
+REFERENCED_TABLE = {
+    "union": {"types[]"},
+    "object": {"interfaces[]", "fields[].type", "fields[].args[].type"},
+    "interface": {"interfaces[]", "fields[].type", "fields[].args[].type"},
+    "input_object": {"fields[].type"},
+}
+
+
+def referenced_complete(check: Check, repo: Repo, rule: str = "REFERENCED-COMPLETE") -> None:
+    check.rule(
+        rule,
+        "TypeSet.collect_referenced_types - what builds the type map of a schema assembled in code - follows, for each kind "
+        "of named type, every place where that kind mentions another type: union members; interfaces, field types and "
+        "field argument types of objects *and* interfaces; field types of input objects. Each (kind, reference) of this "
+        "table is the argument of a recursive call guarded by a test for that kind. A kind whose branch leaves out a "
+        "reference (say the argument types of interface fields) yields a schema that prints a type name it does not define",
+    )
+    fn = repo.func("type.schema", "TypeSet.collect_referenced_types")
+    aliases = {fn.name} | {t.id for s in walk_body(fn) if isinstance(s, ast.Assign) and unparse(s.value) == f"self.{fn.name}" for t in s.targets if isinstance(t, ast.Name)}
+    calls = [c for c in walk_body(fn) if isinstance(c, ast.Call) and ((isinstance(c.func, ast.Name) and c.func.id in aliases) or unparse(c.func) == f"self.{fn.name}") and c.args]
+    if not calls:
+        raise AnalysisError("collect_referenced_types: recursive calls not found")
+    subject = None
+    for s in walk_body(fn):
+        if isinstance(s, ast.Assign) and isinstance(s.value, ast.Call) and call_name(s.value).endswith("get_named_type") and isinstance(s.targets[0], ast.Name):
+            subject = s.targets[0].id
+    if subject is None:
+        raise AnalysisError("collect_referenced_types: the named type under inspection not found")
+
+    def chain(e: ast.AST, at: ast.AST) -> str:
+        if isinstance(e, ast.Attribute):
+            return f"{chain(e.value, at)}.{e.attr}".lstrip(".")
+        if isinstance(e, ast.Call) and isinstance(e.func, ast.Attribute) and e.func.attr in ("values", "items") and not e.args:
+            return chain(e.func.value, at)
+        if isinstance(e, ast.Name):
+            if e.id == subject:
+                return ""
+            for a in ancestors(at):
+                if isinstance(a, (ast.For, ast.comprehension)):
+                    tg = a.target
+                    names = [tg] if isinstance(tg, ast.Name) else [x for x in getattr(tg, "elts", []) if isinstance(x, ast.Name)]
+                    if any(x.id == e.id for x in names):
+                        return chain(a.iter, a) + "[]"
+            return f"?{e.id}"
+        return "?" + unparse(e)
+
+    covered: dict[str, set[str]] = {k: set() for k in REFERENCED_TABLE}
+    for c in calls:
+        ch = chain(c.args[0], c)
+        kinds: set[str] = set()
+        child: ast.AST = c
+        for a in ancestors(c):
+            if isinstance(a, ast.If) and any(child is s for s in a.body):
+                for t in ast.walk(a.test):
+                    if isinstance(t, ast.Call) and t.args and unparse(t.args[0]) == subject:
+                        nm = call_name(t).split(".")[-1]
+                        if nm.startswith("is_") and nm.endswith("_type"):
+                            kinds.add(nm[3:-5])
+                        elif nm == "isinstance" and len(t.args) == 2:
+                            for cl in ast.walk(t.args[1]):
+                                if isinstance(cl, ast.Name) and cl.id.startswith("GraphQL") and cl.id.endswith("Type"):
+                                    kinds.add({"Object": "object", "Interface": "interface", "Union": "union", "InputObject": "input_object"}.get(cl.id[7:-4], cl.id))
+            child = a
+        for k in kinds & set(covered):
+            covered[k].add(ch)
+    for k, want in REFERENCED_TABLE.items():
+        for ref in sorted(want):
+            ok = ref in covered[k]
+            check.ob(rule, fn, f"collect_referenced_types: {k}.{ref}", ok,
+                     "followed under a test for the kind" if ok else
+                     f"no recursive call follows `{ref}` of {k} types (followed for this kind: {sorted(covered[k]) or 'nothing'}): a type "
+                     "mentioned only there never reaches the type map")
+    check.floor(rule, 8, "(kind, reference) pairs")
+
+
+def cycle_edge_by_type(check: Check, repo: Repo, rule: str = "CYCLE-EDGE") -> None:
+    from rules.language_rules import enclosing_conditions, norm_facts
+
+    check.rule(
+        rule,
+        "an input object cycle is unbreakable when every field on it is non-null - whether such a field has a default "
+        "does not matter (a default that has to contain itself is no way out, and legacy `default_value`s are not even "
+        "validated). In InputObjectNonNullCircularRefsValidator.__call__ the edge of the search (the place that pushes "
+        "onto field_path) is therefore taken under tests about `field.type` alone, one of them the non-null test; a test "
+        "of the field's requiredness or default makes the validator accept A.b: B! = {...} -> B.a: A! with an empty "
+        "error list",
+    )
+    fn = repo.func("type.validate", "InputObjectNonNullCircularRefsValidator.__call__")
+    pushes = [c for c in walk_body(fn) if isinstance(c, ast.Call) and isinstance(c.func, ast.Attribute) and c.func.attr == "append" and "field_path" in unparse(c.func.value)]
+    if not pushes:
+        raise AnalysisError("InputObjectNonNullCircularRefsValidator: push onto field_path not found")
+    loops = [l for l in walk_body(fn) if isinstance(l, ast.For) and any(p in list(ast.walk(l)) for p in pushes)]
+    if not loops:
+        raise AnalysisError("InputObjectNonNullCircularRefsValidator: field loop not found")
+    tg = loops[0].target
+    fvars = {x.id for x in ast.walk(tg) if isinstance(x, ast.Name)}
+    flow = FactFlow(CFG(fn))
+    for p in pushes:
+        facts = norm_facts(flow.facts_at(p)) | enclosing_conditions(p)
+        foreign = []
+        nonnull = False
+        for t, pol in sorted(facts):
+            try:
+                e = ast.parse(t, mode="eval").body
+            except SyntaxError:
+                continue
+            for x in ast.walk(e):
+                for ch in ast.iter_child_nodes(x):
+                    ch.parent = x  # type: ignore[attr-defined]
+            uses = [x for x in ast.walk(e) if isinstance(x, ast.Name) and x.id in fvars]
+            if not uses:
+                continue
+            if any(not (isinstance(getattr(x, "parent", None), ast.Attribute) and x.parent.attr == "type") for x in uses):  # type: ignore[attr-defined]
+                foreign.append(f"{'' if pol else 'not '}{t}")
+            if pol and (("is_non_null_type(" in t) or ("GraphQLNonNull" in t)):
+                nonnull = True
+        ok = nonnull and not foreign
+        check.ob(rule, p, "InputObjectNonNullCircularRefsValidator: edge condition", ok,
+                 "the edge is taken for non-null fields, by type alone" if ok else
+                 (f"the edge depends on {foreign} - more than the field's type" if foreign else "no non-null test on the field's type guards the edge"))
+    check.floor(rule, 1, "edge of the non-null cycle search")
